@@ -103,6 +103,43 @@ theorem good_newArray {t : JType} {n : DExpr} (gn : Good n) (ht : t ≠ .ref [])
     simp [headIsLb_of_ok hok]
   | .ref [], h => exact absurd rfl h
 
+/-! ## compound conditions `(a) && (b)` -/
+
+/-- `( a )` where nothing that could be a cast operand follows: a parenthesised expression, whatever `a` is -/
+theorem uu_group {a : DExpr} (ga : Good a) : ∀ rest, okAfter 15 rest → ∀ f, 8 * (L a + 2) + 1 ≤ f →
+    parseUnary f (.lp :: print a ++ .rp :: rest) = some (.paren (toJava a), rest) := by
+  intro rest hok f hf
+  obtain ⟨g, rfl⟩ : ∃ g, f = g + 3 := ⟨f - 3, by omega⟩
+  rw [List.cons_append, parseUnary_lp, primCast_print,
+    ga.ee 0 (.rp :: rest) (Nat.zero_le _) trivial (fun _ _ h => by cases h) (g + 2) (by omega)]
+  show afterParen (g + 2) (toJava a) rest = _
+  rw [afterParen_succ, starts_of_ok hok]
+  cases asQName (toJava a) <;> simp [suffixes_stop _ _ _ hok]
+
+theorem good_scc {i : Bool} {a b : DExpr} (ga : Good a) (gb : Good b) : Good (.scc i a b) := by
+  have hlev : level (.scc i a b) = (if i then BinOp.land else BinOp.lor).prec := by cases i <;> rfl
+  refine .of_cc (by rw [hlev]; have := prec_le (if i then BinOp.land else BinOp.lor); omega)
+    (fun p rest n R hp hok hc f hf => ?_)
+  rw [hlev] at hp hok
+  have e1 : print (.scc i a b) ++ rest = .lp :: print a ++ .rp ::
+      (.bin (if i then .land else .lor) :: (.lp :: print b ++ .rp :: rest)) := by simp [print]
+  have e2 : L (.scc i a b) = L a + L b + 5 := by simp [L, print]; omega
+  have e3 : toJava (.scc i a b) = .bin (if i then .land else .lor) (.paren (toJava a)) (.paren (toJava b)) := by
+    simp [toJava]
+  rw [e1]; rw [e3] at hc; rw [e2] at hf
+  have h15 : okAfter 15 rest := okAfter_mono (by have := prec_le (if i then BinOp.land else BinOp.lor); omega) hok
+  obtain ⟨g, rfl⟩ : ∃ g, f = g + 3 := ⟨f - 3, by omega⟩
+  have hop : okAfter 15 (.bin (if i then BinOp.land else BinOp.lor) :: (.lp :: print b ++ .rp :: rest)) := by
+    show (if i then BinOp.land else BinOp.lor).prec ≤ 15
+    have := prec_le (if i then BinOp.land else BinOp.lor); omega
+  rw [parseExpr_succ, uu_group ga _ hop (g + 2) (by omega)]
+  show climb (g + 2) p _ _ = some R
+  rw [climb_bin, if_pos hp, parseExpr_succ, uu_group gb rest h15 g (by omega)]
+  show (match climb g _ _ rest with | some (rhs, r') => climb (g + 1) p _ r' | none => none) = some R
+  obtain ⟨g', rfl⟩ : ∃ g', g = g' + 1 := ⟨g - 1, by omega⟩
+  rw [climb_stop g' _ _ rest h15 (fun o r' hr => by subst hr; have := okAfter_bin hok; omega)]
+  exact hc (g' + 1 + 1) (by omega)
+
 /-! ## induction over the IR expression -/
 
 mutual
@@ -138,6 +175,9 @@ theorem good : ∀ (e : DExpr), wf e = true → Good e
     simp [wf] at hw
     exact good_cmp (good a hw.1) (good b hw.2)
   | .cmp false a b, hw => by simp [wf] at hw
+  | .scc i a b, hw => by
+    simp [wf] at hw
+    exact good_scc (good a hw.1) (good b hw.2)
   | .condzBool o a, hw => by
     simp only [wf, Bool.and_eq_true, decide_eq_true_eq] at hw
     exact good_condzBool (good a hw.1) hw.2
